@@ -5,6 +5,7 @@ package drpcstream
 
 import (
 	"context"
+	"errors"
 	"fmt"
 	"io"
 	"runtime/trace"
@@ -435,13 +436,17 @@ func (s *Stream) rawFlushLocked() (err error) {
 }
 
 func (s *Stream) checkRecvFlush() (err error) {
+	// a flush that fails with io.EOF means the send side has already been
+	// ended (remote error or cancel, local cancel). the stream is terminated
+	// in that state and the receive reports the actual reason, so it must not
+	// be replaced by the io.EOF of a flush that can no longer happen.
 	s.flush.Do(func() { err = s.RawFlush() })
-	if err != nil {
+	if err != nil && !errors.Is(err, io.EOF) {
 		return err
 	}
 
 	if s.opts.ManualFlush && !s.wr.Empty() {
-		if err := s.RawFlush(); err != nil {
+		if err := s.RawFlush(); err != nil && !errors.Is(err, io.EOF) {
 			return err
 		}
 	}
